@@ -212,6 +212,101 @@ def run(ctx):
         return None
     ctx.diff_domain("conn", raw_cases, oracle=raw_oracle, nontrivial=lambda c, i: c if len(RAW[c][1]) >= 2 else None,
                     classify=lambda c, i: ["api:send_raw", "mode:" + ("raw" if RAW[c][0] else "unconnected")])
+    # Node::send / link / unlink / monitor / demonitor toward a process on the connected node: one frame each, with the
+    # protocol's control tuple; after the peer has gone they fail and write nothing
+    REMOTE = ("p", b"p00000@127.0.0.1", 9, 0, 1, None)
+    nscripts, NEXP = [], {}
+    for k in range(ctx.budget(24, 500)):
+        steps, ops, nref, closed = ["spawn", "spawn"], [], 0, False
+        for _ in range(rng.choice([2, 4, 7, 10])):
+            r = rng.random()
+            a = rng.randrange(2)
+            if r < 0.25:
+                msg = gen_payload(rng)
+                steps.append("rsend " + etf.show(msg)); ops.append(("send", None, msg))
+            elif r < 0.45:
+                steps.append("rlink $%d" % a); ops.append(("link", a, None))
+            elif r < 0.65:
+                steps.append("runlink $%d" % a); ops.append(("unlink", a, None))
+            elif r < 0.82:
+                steps.append("rmonitor $%d" % a); ops.append(("monitor", a, nref)); nref += 1
+            elif r < 0.94 and nref:
+                j = rng.randrange(nref)
+                steps.append("rdemonitor $%d #%d" % (a, j)); ops.append(("demonitor", a, j))
+            elif not closed and rng.random() < 0.5:
+                steps.append("close"); ops.append(("close", None, None)); closed = True
+        case = SEP.join(["node 1"] + steps + ["wrote"])
+        NEXP[case] = ops
+        nscripts.append(case)
+
+    def node_oracle(case, impl):
+        if impl.startswith(("PANIC", "CRASH", "TIMEOUT", "start-err", "connect-err", "peer-handshake")):
+            return ("violation", "the node did not survive the script: " + impl[:60])
+        outs = impl.split(SEP)
+        ops = NEXP[case]
+        pids = [etf.parse_term(o[4:]) for o in outs[:2]]
+        frames = connlib.split_frames(bytes.fromhex(outs[-1].replace(".", "")))
+        if frames is None:
+            return ("violation", "the bytes written do not consist of whole frames")
+        want, refs, up, last_id = [], [], True, None
+        for (kind, a, x), o in zip(ops, outs[2:-1]):
+            if kind == "close":
+                up = False
+                continue
+            if kind == "monitor":
+                refs.append(etf.parse_term(o[4:]) if o.startswith("ref ") else None)
+            carry = not (kind == "send" and cannot_carry(("t", [("i", 2), ("a", b""), REMOTE]), x, False))
+            ok = up and carry
+            if (o != "err") != ok:
+                return ("violation", "%s toward the remote node %s" % (kind, "failed on a live connection" if ok else "did not fail although nothing can be sent"))
+            if not ok:
+                continue
+            frm = pids[a] if a is not None else None
+            if kind == "send":
+                want.append((("t", [("i", 2), ("a", b""), REMOTE]), x))
+            elif kind == "link":
+                want.append((("t", [("i", 1), frm, REMOTE]), None))
+            elif kind == "unlink":
+                want.append((("unlink", frm), None))
+            elif kind == "monitor":
+                want.append((("t", [("i", 19), frm, REMOTE, refs[-1]]), None))
+            else:
+                if refs[x] is None:
+                    return None
+                want.append((("t", [("i", 20), frm, REMOTE, refs[x]]), None))
+        if len(frames) != len(want):
+            return ("violation", "%d successful operations, %d frames on the wire" % (len(want), len(frames)))
+        seen_ids = set()
+        for i, (f, (ctl, msg)) in enumerate(zip(frames, want)):
+            try:
+                r = etf.Reader(f)
+                if r.u(1) != 112 or r.u(1) != 131:
+                    raise etf.EtfError("marker")
+                r.refs = []
+                c = etf.spec_read_term(r)
+                p = None
+                if r.i < len(f):
+                    if r.u(1) != 131:
+                        raise etf.EtfError("version")
+                    p = etf.spec_read_term(r)
+                if r.i != len(f):
+                    raise etf.EtfError("trailing bytes")
+            except (etf.EtfError, UnicodeDecodeError, ValueError, IndexError) as e:
+                return ("violation", "frame %d is not readable by an independent implementation of the protocol: %s" % (i, e))
+            if ctl[0] == "unlink":
+                ok = c[0] == "tuple" and len(c[1]) == 4 and c[1][0] == ("int", 35) and c[1][1][0] == "int" and c[1][2] == etf.denote(ctl[1]) and c[1][3] == etf.denote(REMOTE)
+                if not ok:
+                    return ("violation", "frame %d is not the UNLINK_ID tuple of the operation" % i)
+                if c[1][1][1] in seen_ids:
+                    return ("violation", "two unlink operations carry the same id")
+                seen_ids.add(c[1][1][1])
+            elif c != etf.denote(termgen.strip_loc(ctl)):
+                return ("violation", "frame %d does not carry the control tuple the protocol assigns to the operation" % i)
+            if (p is None) != (msg is None) or (msg is not None and p != etf.denote(termgen.strip_loc(msg))):
+                return ("violation", "frame %d does not carry the payload given" % i)
+        return None
+    ctx.diff_domain("node", nscripts, oracle=node_oracle, nontrivial=lambda c, i: c if len(NEXP[c]) >= 2 else None,
+                    classify=lambda c, i: ["api:node-remote"] + ["nodeop:" + k for k, _, _ in NEXP[c]])
     # concurrent senders through one node: frames of different tasks never interleave, each task's frames arrive in
     # the order it issued them (the theorem for every schedule is Conc/Interleave.v; this samples the scheduler's)
     bursts = [SEP.join(["node 1", "spawn", "burst %d %d %d" % (k, n, size), "wrote"])
